@@ -419,6 +419,15 @@ fn families(tier: &str) -> Vec<(&'static str, Vec<Vec<Sib>>)> {
         vec![Elem("I-SIGNAL", "a2"), Elem("I-SIGNAL", "a10"), Elem("I-SIGNAL", "a1b"), Elem("SYSTEM-SIGNAL", "a")],
         vec![Elem("UNIT", "b"), Elem("COMPU-METHOD", "b1"), Elem("UNIT", "a_1"), Elem("COMPU-METHOD", "a01")],
     ]));
+    // numeric suffixes around the u64 boundary: a suffix that does not fit u64 is no index (the whole name is the base);
+    // equal index with different text (leading zeros); names that are one letter and digits
+    v.push(("bag", vec![
+        vec![Elem("I-SIGNAL", "Frame_18446744073709551615"), Elem("I-SIGNAL", "Frame_18446744073709551616"), Elem("I-SIGNAL", "Frame"), Elem("I-SIGNAL", "Frame_7")],
+        vec![Elem("I-SIGNAL", "Frame_18446744073709551614"), Elem("I-SIGNAL", "Frame_1234567890123456789012345"), Elem("I-SIGNAL", "Frame_18446744073709551615"), Elem("I-SIGNAL", "Frame_9")],
+        vec![Elem("I-SIGNAL", "x007"), Elem("I-SIGNAL", "x7"), Elem("I-SIGNAL", "x07"), Elem("I-SIGNAL", "x8")],
+        vec![Elem("I-SIGNAL", "a18446744073709551616"), Elem("I-SIGNAL", "a1"), Elem("I-SIGNAL", "a18446744073709551615"), Elem("I-SIGNAL", "a")],
+        vec![Elem("I-SIGNAL", "Frame_18446744073709551616"), Elem("I-SIGNAL", "Frame_18446744073709551617"), Elem("I-SIGNAL", "Frame_99999999999999999999"), Elem("SYSTEM-SIGNAL", "Frame_18446744073709551618")],
+    ]));
     v.push(("ordered", vec![
         vec![Arg("a2"), Arg("a10"), Arg("a1b")],
         vec![Arg("b"), Arg("a"), Arg("a1"), Arg("a01")],
